@@ -177,6 +177,12 @@ def make_cases(ctx, n_gen, n_shipped, sched_len, max_total):
             blk = (rng.randrange(w["nb"]), rng.randrange(w["nb"]))
             z = (0,) * w["np"]
             sched = [("tab", a, blk + z), ("tab", b, blk + z), ("tab", a, blk + z)] + sched
+        if p.get("herm_long") and p["herm_long"] in names:
+            # a declared product of three or four factors: all blocks, lower ones first, at the orders where it is non-zero
+            z = (0,) * (w["np"] - 1)
+            extra = [("tab", p["herm_long"], (1, 0, 2) + z), ("tab", p["herm_long"], (1, 1, 2) + z),
+                     ("tab", p["herm_long"], (0, 1, 2) + z), ("tab", p["herm_long"], (w["nb"] - 1, 0, 3 if w["np"] == 1 else 2) + z)]
+            sched = sched[:3] + extra + sched[3:]
         obs = [observe(series, r) for r in sched]
         out.append(dict(prog=p, world=w, sched=sched, obs=obs, names=names))
     return out
